@@ -237,3 +237,320 @@ theorem join_eq_of {a b : St F} {n : Nat} {links : List (PinRef × PinRef)}
   cases A.add? B <;> rfl
 
 end St
+
+namespace St
+
+/-- the composite's id, pin list, index map, connection table, neighbour list and members do not
+depend on the matrix values of the two operands -/
+theorem join_sameShape {a a' b b' : St F} (ha : a.SameShape a') (hb : b.SameShape b') (n : Nat)
+    {c c' : St F} (h : St.join a b n = .ok c) (h' : St.join a' b' n = .ok c') :
+    c.SameShape c' := by
+  obtain ⟨links, _, _, _, _, C, addPins, h1, _, _, _, _, _, h7, rfl⟩ := join_ok_elim h
+  obtain ⟨links', _, _, _, _, C', addPins', h1', _, _, _, _, _, h7', rfl⟩ := join_ok_elim h'
+  rw [linkPins_sameShape ha hb, h1'] at h1
+  cases h1
+  rw [ha.pins_eq, hb.pins_eq, h7'] at h7
+  cases h7
+  exact build_sameShape ha hb n C C' addPins
+
+/-- when `join` succeeds on one slice, the only way it can fail on a same-shape slice is a singular
+star product: every other failure class depends on the shape only -/
+theorem join_ok_of_sameShape_ne_singular {a a' b b' : St F} (ha : a.SameShape a')
+    (hb : b.SameShape b') (n : Nat) {c : St F} (h : St.join a b n = .ok c) :
+    (∃ c', St.join a' b' n = .ok c') ∨ St.join a' b' n = .error .singular := by
+  obtain ⟨links, selfIn, stOut, A, B, C, addPins, h1, h2, h3, h4, h5, h6, h7, _⟩ := join_ok_elim h
+  rw [linkPins_sameShape ha hb] at h1
+  rw [ha.pins_eq] at h2
+  rw [hb.pins_eq] at h3
+  rw [ha.pins_eq, hb.pins_eq] at h7
+  obtain ⟨hA, hAN, hAM⟩ := split_ok h4
+  obtain ⟨hB, hBN, hBM⟩ := split_ok h5
+  rw [hasIdx_sameShape ha, hasIdx_sameShape ha] at hA
+  rw [hasIdx_sameShape hb, hasIdx_sameShape hb] at hB
+  obtain ⟨A', h4', hAN', hAM'⟩ := split_of_hasIdx hA
+  obtain ⟨B', h5', hBN', hBM'⟩ := split_of_hasIdx hB
+  have hd : (A'.M != B'.N) = false := by
+    have := SMat.add?_ok_dim h6
+    rw [hAM, hBN] at this
+    rw [hAM', hBN']
+    exact this
+  rw [join_eq_of h1 h2 h3 h4' h5' h7]
+  rcases SMat.add?_ok_or_singular hd with ⟨C', hC'⟩ | hs
+  · rw [hC']; exact Or.inl ⟨_, rfl⟩
+  · rw [hs]; exact Or.inr rfl
+
+end St
+
+/-! ## The elimination loops -/
+namespace Solve
+
+/-- two lists of live structures that differ at most in the matrices -/
+def SameShapes (l l' : List (St F)) : Prop := List.Forall₂ St.SameShape l l'
+
+theorem SameShapes.refl (l : List (St F)) : SameShapes l l := by
+  induction l with
+  | nil => exact List.Forall₂.nil
+  | cons a _ ih => exact List.Forall₂.cons (St.SameShape.refl a) ih
+
+theorem sortByPins_sameShapes {l l' : List (St F)} (h : SameShapes l l') :
+    SameShapes (sortByPins l) (sortByPins l') := by
+  unfold sortByPins
+  suffices H : ∀ {acc acc' : List (St F)}, SameShapes acc acc' →
+      SameShapes
+        (l.foldl (fun acc s =>
+          let (a, b) := acc.span (fun t => t.pins.length ≤ s.pins.length); a ++ [s] ++ b) acc)
+        (l'.foldl (fun acc s =>
+          let (a, b) := acc.span (fun t => t.pins.length ≤ s.pins.length); a ++ [s] ++ b) acc') from
+    H List.Forall₂.nil
+  induction h with
+  | nil => intro acc acc' hacc; exact hacc
+  | @cons s s' _ _ hs _ ih =>
+    intro acc acc' hacc
+    simp only [List.foldl_cons]
+    apply ih
+    have hsp := forall₂_span (R := St.SameShape)
+      (p := fun t : St F => decide (t.pins.length ≤ s.pins.length))
+      (q := fun t : St F => decide (t.pins.length ≤ s'.pins.length))
+      (fun x y hxy => by simp only [hxy.pins_eq, hs.pins_eq]) hacc
+    exact forall₂_append (forall₂_append hsp.1 (forall₂_singleton hs)) hsp.2
+
+theorem goneTo_sameShapes {l l' : List (St F)} (h : SameShapes l l') (b : Nat) :
+    OptRel St.SameShape (goneTo l b) (goneTo l' b) :=
+  forall₂_find? (fun x y hxy => by simp only [St.group_sameShape hxy]) h
+
+theorem find?_id_sameShapes {l l' : List (St F)} (h : SameShapes l l') (i : Nat) :
+    OptRel St.SameShape (l.find? (·.id == i)) (l'.find? (·.id == i)) :=
+  forall₂_find? (fun x y hxy => by simp only [hxy.id_eq]) h
+
+/-- one scheduled merge -/
+theorem stepWith_sameShape (sched : List (St F) → Option (Nat × Nat))
+    (hs : ∀ l l', SameShapes l l' → sched l = sched l') {live live' : List (St F)}
+    (h : SameShapes live live') (fresh : Nat) {r r' : List (St F)}
+    (e : stepWith sched live fresh = .ok r) (e' : stepWith sched live' fresh = .ok r') :
+    SameShapes r r' := by
+  unfold stepWith at e e'
+  rw [← hs live live' h] at e'
+  cases hsch : sched live with
+  | none => rw [hsch] at e; cases e
+  | some ij =>
+    obtain ⟨i, j⟩ := ij
+    rw [hsch] at e e'
+    dsimp only at e e'
+    have hi := find?_id_sameShapes h i
+    have hj := find?_id_sameShapes h j
+    cases hfi : live.find? (·.id == i) with
+    | none => rw [hfi] at e; cases e
+    | some src =>
+      cases hfj : live.find? (·.id == j) with
+      | none => rw [hfi, hfj] at e; cases e
+      | some tar =>
+        cases hfi' : live'.find? (·.id == i) with
+        | none => rw [hfi'] at e'; cases e'
+        | some src' =>
+          cases hfj' : live'.find? (·.id == j) with
+          | none => rw [hfi', hfj'] at e'; cases e'
+          | some tar' =>
+            rw [hfi, hfi'] at hi
+            rw [hfj, hfj'] at hj
+            rw [hfi, hfj] at e
+            rw [hfi', hfj'] at e'
+            dsimp only at e e'
+            split at e
+            · cases e
+            · split at e'
+              · cases e'
+              · cases hjn : St.join src tar fresh with
+                | error er => rw [hjn] at e; cases e
+                | ok new =>
+                  cases hjn' : St.join src' tar' fresh with
+                  | error er => rw [hjn'] at e'; cases e'
+                  | ok new' =>
+                    rw [hjn] at e
+                    rw [hjn'] at e'
+                    cases e
+                    cases e'
+                    exact forall₂_append
+                      (forall₂_filter (fun x y hxy => by simp only [hxy.id_eq]) h)
+                      (forall₂_singleton (St.join_sameShape hi hj fresh hjn hjn'))
+
+theorem loopWith_singleton (sched : List (St F) → Option (Nat × Nat)) (fuel : Nat) (s : St F)
+    (fresh : Nat) : loopWith sched fuel [s] fresh = .ok s := by
+  cases fuel <;> rfl
+
+theorem loopWith_succ_elim {sched : List (St F) → Option (Nat × Nat)} {fuel : Nat}
+    {live : List (St F)} {fresh : Nat} {s : St F} (hne : ∀ t, live ≠ [t])
+    (e : loopWith sched (fuel + 1) live fresh = .ok s) :
+    ∃ r, stepWith sched live fresh = .ok r ∧ loopWith sched fuel r (fresh + 1) = .ok s := by
+  unfold loopWith at e
+  split at e
+  · exact absurd rfl (hne _)
+  · split at e
+    · cases e
+    · exact ⟨_, ‹_›, e⟩
+
+/-- the whole scheduled elimination -/
+theorem loopWith_sameShape (sched : List (St F) → Option (Nat × Nat))
+    (hs : ∀ l l', SameShapes l l' → sched l = sched l') (fuel : Nat) :
+    ∀ {live live' : List (St F)}, SameShapes live live' → ∀ (fresh : Nat) {s s' : St F},
+      loopWith sched fuel live fresh = .ok s → loopWith sched fuel live' fresh = .ok s' →
+      s.SameShape s' := by
+  induction fuel with
+  | zero =>
+    intro live live' h fresh s s' e e'
+    unfold loopWith at e e'
+    cases h with
+    | nil => cases e
+    | cons hab hrest =>
+      cases hrest with
+      | nil => cases e; cases e'; exact hab
+      | cons _ _ => cases e
+  | succ fuel ih =>
+    intro live live' h fresh s s' e e'
+    have main : (∀ t, live ≠ [t]) → (∀ t, live' ≠ [t]) → s.SameShape s' := by
+      intro hne hne'
+      obtain ⟨r, hr, e⟩ := loopWith_succ_elim hne e
+      obtain ⟨r', hr', e'⟩ := loopWith_succ_elim hne' e'
+      exact ih (stepWith_sameShape sched hs h fresh hr hr') (fresh + 1) e e'
+    cases h with
+    | nil => exact main (fun t ht => by cases ht) (fun t ht => by cases ht)
+    | cons hab hrest =>
+      cases hrest with
+      | nil =>
+        rw [loopWith_singleton] at e e'
+        cases e; cases e'; exact hab
+      | cons _ _ => exact main (fun t ht => by cases ht) (fun t ht => by cases ht)
+
+/-- one merge of the heuristic loop -/
+theorem step_sameShape {live live' : List (St F)} (h : SameShapes live live') (fresh : Nat)
+    {r r' : List (St F)} (e : step live fresh = .ok r) (e' : step live' fresh = .ok r') :
+    SameShapes r r' := by
+  have hsorted := sortByPins_sameShapes h
+  unfold step at e e'
+  dsimp only at e e'
+  split at e
+  · cases e
+  · rename_i src rest hsrc
+    split at e'
+    · cases e'
+    · rename_i src' rest' hsrc'
+      have hsorted0 := hsorted
+      rw [hsrc, hsrc'] at hsorted
+      cases hsorted with
+      | cons hsrc_eq hrest =>
+        have hcand : SameShapes
+            (sortByPins (List.filter (fun t => t.id != src.id)
+              (List.filterMap (goneTo (sortByPins live)) src.connTo)) ++ rest)
+            (sortByPins (List.filter (fun t => t.id != src'.id)
+              (List.filterMap (goneTo (sortByPins live')) src'.connTo)) ++ rest') := by
+          refine forall₂_append ?_ hrest
+          apply sortByPins_sameShapes
+          refine forall₂_filter (fun x y hxy => by simp only [hxy.id_eq, hsrc_eq.id_eq]) ?_
+          rw [hsrc_eq.connTo_eq]
+          exact forall₂_filterMap_same (goneTo_sameShapes hsorted0) _
+        split at e
+        · cases e
+        · rename_i tar tl htar
+          split at e'
+          · cases e'
+          · rename_i tar' tl' htar'
+            rw [htar, htar'] at hcand
+            cases hcand with
+            | cons htar_eq _ =>
+              obtain ⟨new, hj, e⟩ := bind_ok e
+              obtain ⟨new', hj', e'⟩ := bind_ok e'
+              simp only [pure, Except.pure, Except.ok.injEq] at e e'
+              subst e
+              subst e'
+              exact forall₂_append
+                (forall₂_filter (fun x y hxy => by
+                  simp only [hxy.id_eq, hsrc_eq.id_eq, htar_eq.id_eq]) hsorted0)
+                (forall₂_singleton (St.join_sameShape hsrc_eq htar_eq fresh hj hj'))
+
+theorem loop_singleton (fuel : Nat) (s : St F) (fresh : Nat) : loop fuel [s] fresh = .ok s := by
+  cases fuel <;> rfl
+
+theorem loop_zero_elim {live : List (St F)} {fresh : Nat} {s : St F} (hne : ∀ t, live ≠ [t])
+    (e : loop 0 live fresh = .ok s) : False := by
+  unfold loop at e
+  split at e
+  · exact absurd rfl (hne _)
+  · cases e
+  · rename_i heq _; cases heq
+
+theorem loop_succ_elim {fuel : Nat} {live : List (St F)} {fresh : Nat} {s : St F}
+    (hne : ∀ t, live ≠ [t]) (e : loop (fuel + 1) live fresh = .ok s) :
+    ∃ r, step live fresh = .ok r ∧ loop fuel r (fresh + 1) = .ok s := by
+  unfold loop at e
+  split at e
+  · exact absurd rfl (hne _)
+  · cases e
+  · rename_i heq _
+    cases heq
+    exact bind_ok e
+
+/-- the whole heuristic elimination -/
+theorem loop_sameShape (fuel : Nat) :
+    ∀ {live live' : List (St F)}, SameShapes live live' → ∀ (fresh : Nat) {s s' : St F},
+      loop fuel live fresh = .ok s → loop fuel live' fresh = .ok s' → s.SameShape s' := by
+  induction fuel with
+  | zero =>
+    intro live live' h fresh s s' e e'
+    cases h with
+    | nil => exact (loop_zero_elim (fun t ht => by cases ht) e).elim
+    | cons hab hrest =>
+      cases hrest with
+      | nil =>
+        rw [loop_singleton] at e e'
+        cases e; cases e'; exact hab
+      | cons _ _ => exact (loop_zero_elim (fun t ht => by cases ht) e).elim
+  | succ fuel ih =>
+    intro live live' h fresh s s' e e'
+    have main : (∀ t, live ≠ [t]) → (∀ t, live' ≠ [t]) → s.SameShape s' := by
+      intro hne hne'
+      obtain ⟨r, hr, e⟩ := loop_succ_elim hne e
+      obtain ⟨r', hr', e'⟩ := loop_succ_elim hne' e'
+      exact ih (step_sameShape h fresh hr hr') (fresh + 1) e e'
+    cases h with
+    | nil => exact main (fun t ht => by cases ht) (fun t ht => by cases ht)
+    | cons hab hrest =>
+      cases hrest with
+      | nil =>
+        rw [loop_singleton] at e e'
+        cases e; cases e'; exact hab
+      | cons _ _ => exact main (fun t ht => by cases ht) (fun t ht => by cases ht)
+
+end Solve
+
+/-! ## C04: the control flow does not depend on the matrix values -/
+
+/-- C04 (scheduled loop): two runs of the elimination on lists of structures that differ at most
+in their matrices (two slices of a sweep), driven by a schedule that reads shape data only, end in
+structures with the same id, pins, index map, connection table, neighbour list and members. -/
+theorem C04_control_flow_value_independent (sched : List (St F) → Option (Nat × Nat))
+    (hs : ∀ l l', Solve.SameShapes l l' → sched l = sched l') (fuel : Nat)
+    {live live' : List (St F)} (h : Solve.SameShapes live live') (fresh : Nat) {s s' : St F}
+    (e : Solve.loopWith sched fuel live fresh = .ok s)
+    (e' : Solve.loopWith sched fuel live' fresh = .ok s') : s.SameShape s' :=
+  Solve.loopWith_sameShape sched hs fuel h fresh e e'
+
+/-- C04 (heuristic loop): the pin-count heuristic picks its pairs from shape data only. -/
+theorem C04_control_flow_value_independent_heuristic (fuel : Nat)
+    {live live' : List (St F)} (h : Solve.SameShapes live live') (fresh : Nat) {s s' : St F}
+    (e : Solve.loop fuel live fresh = .ok s) (e' : Solve.loop fuel live' fresh = .ok s') :
+    s.SameShape s' :=
+  Solve.loop_sameShape fuel h fresh e e'
+
+/-- C04 (single merge): on a same-shape slice a merge that succeeded can only fail by a singular
+star product. -/
+theorem C04_join_failure_value_dependent_only_singular {a a' b b' : St F} (ha : a.SameShape a')
+    (hb : b.SameShape b') (n : Nat) {c : St F} (h : St.join a b n = .ok c) :
+    (∃ c', St.join a' b' n = .ok c' ∧ c.SameShape c') ∨ St.join a' b' n = .error .singular := by
+  rcases St.join_ok_of_sameShape_ne_singular ha hb n h with ⟨c', hc'⟩ | hs
+  · exact Or.inl ⟨c', hc', St.join_sameShape ha hb n h hc'⟩
+  · exact Or.inr hs
+
+#print axioms C04_control_flow_value_independent
+#print axioms C04_control_flow_value_independent_heuristic
+#print axioms C04_join_failure_value_dependent_only_singular
+#print axioms Solve.stepWith_sameShape
+#print axioms Solve.step_sameShape
